@@ -98,8 +98,8 @@ CONFIGS = {
 }
 
 PLAN = {
-    "C01": dict(quick=["shapes3", "seeds3"], thorough=["shapes3", "seeds3", "lin4", "ignore3"],
-                drivers=["forced", "run"]),
+    "C01": dict(quick=["shapes3", "seeds3"], thorough=["shapes3", "seeds3", "lin4", "ignore3", "oog3"],
+                drivers=["forced", "run", "closure"]),
     "C02": dict(quick=["kinds3q", "miss3q", "dis3q"], thorough=["kinds3", "rules3", "miss3q", "dis3q", "shapes3", "ignore3"],
                 drivers=["forced", "run"]),
     "C03": dict(quick=["faults3q", "faults3c", "elems3"], thorough=["faults3", "faults3b", "faults3c", "faults4", "rules3", "elems3full"],
@@ -219,6 +219,7 @@ def run(prop, tier):
                 continue
             first = ts[0]
             traces.append(dict(id=first["id"].split("/")[0] + "/same", prog=first["prog"], ss=first["ss"], mode="single",
+                               closure=False,
                                workers=1, final=None,
                                events=[dict(ev="same", ra=first["id"], rb=t["id"], a=first["final"], b=t["final"])
                                        for t in ts[1:]]))
